@@ -136,11 +136,8 @@ Definition spec_ok (c : case) : bool :=
   | Cnt n count needs => (count * 4000 >=? n) && ((count - 1) * 4000 <? n) && (0 <=? count) && Bool.eqb needs (1000 <? n)
   end.
 
-Definition known_class (c : case) : Z :=
-  match c with
-  | Hist ty wal pk steps => hist_class ty pk (fst (hist_parts steps))
-  | _ => 0
-  end.
+(* every recorded finding class has been repaired upstream (16c5acb, 170f3f6, 1b44555, cc39952): nothing is excused *)
+Definition known_class (c : case) : Z := 0.
 
 Fixpoint failures_from (i : Z) (cs : list case) : list (Z * bool * bool * Z) :=
   match cs with
